@@ -1,5 +1,7 @@
-(* Proofs about Model/C19Compute.v: merges and merge rounds with an integer latency. *)
-From Coq Require Import ZArith List Bool Lia PeanoNat.
+(* Proofs about Model/C19Compute.v: merges, merge rounds and whole tensors with an integer latency
+   (closed form), payload independence, and the head-insertion loop of latency "N" against the
+   register-bag reference. *)
+From Coq Require Import ZArith List Bool Lia PeanoNat Permutation ZifyBool.
 From FT Require Import Model.Base Model.C19Compute.
 Import ListNotations.
 Open Scope Z_scope.
@@ -123,4 +125,538 @@ Proof.
       * rewrite !map_length, merged_elems, merged_cost, Hc, Hlen. fold n. f_equal; lia.
       * exact (proj1 Hr2).
       * rewrite !map_length. lia.
+Qed.
+
+(* ---------------------------------------------------------------- whole tensors *)
+Lemma all_some_map_in {A B} (f : A -> option B) (g : A -> B) l :
+  (forall x, In x l -> f x = Some (g x)) -> all_some (map f l) = Some (map g l).
+Proof.
+  induction l as [|x l IH]; intros H; [reflexivity|].
+  cbn [map all_some]. rewrite (H x (or_introl eq_refl)), IH; [reflexivity|].
+  intros y Hy. apply H. right. exact Hy.
+Qed.
+
+Lemma present_in d es ct : In ct (present d es) -> In ct es.
+Proof. unfold present. intros H. apply filter_In in H. tauto. Qed.
+
+Definition kid_coords (ct : Z * tree) : list Z :=
+  match snd ct with Node es' => map fst es' | Leaf _ => [] end.
+
+Lemma leaf_lists_map l :
+  Forall (fun ct : Z * tree => exists es', snd ct = Node es') l ->
+  flat_map (fun ct => match snd ct with Node es' => [map fst es'] | Leaf _ => [] end) l
+  = map kid_coords l.
+Proof.
+  induction 1 as [|ct l [es' He] _ IH]; [reflexivity|].
+  cbn [flat_map map]. rewrite IH. unfold kid_coords at 2. rewrite He. reflexivity.
+Qed.
+
+Lemma depth1_node t n : depth_ok (S n) t = true -> exists es', t = Node es'.
+Proof. destruct t as [v|es']; [discriminate|]. eexists; reflexivity. Qed.
+
+Lemma concat_sorted_length (cs : list (list Z)) :
+  length (concat (map (fun l => sort_z (map Z.opp l)) cs)) = length (concat cs).
+Proof.
+  induction cs as [|l cs IH]; [reflexivity|].
+  cbn [map concat]. rewrite !app_length, IH, sort_z_length, map_length. reflexivity.
+Qed.
+
+Lemma swaps_tree_int : forall depth radix lat t,
+  radix_ok radix -> depth_ok (depth + 2) t = true ->
+  swaps_tree depth radix (Some lat) t = Some (swaps_spec_int depth radix lat t).
+Proof.
+  induction depth as [|d IH]; intros radix lat [v|es] Hr Hd; try discriminate.
+  - cbn [swaps_tree swaps_spec_int]. cbn [Nat.add depth_ok] in Hd.
+    rewrite forallb_forall in Hd.
+    assert (Hk : Forall (fun ct : Z * tree => exists es', snd ct = Node es') (present 0 es)).
+    { rewrite Forall_forall. intros ct Hin. apply (depth1_node _ 0). apply Hd.
+      exact (present_in _ _ _ Hin). }
+    rewrite (all_some_map_in (fun ct => coords_of (snd ct)) kid_coords).
+    + unfold leaf_lists. rewrite (leaf_lists_map _ Hk).
+      rewrite rounds_int; [|exact Hr|apply le_n].
+      rewrite !map_length, concat_sorted_length. f_equal; lia.
+    + intros ct Hin. rewrite Forall_forall in Hk. destruct (Hk ct Hin) as [es' He].
+      unfold kid_coords. rewrite He. reflexivity.
+  - cbn [swaps_tree swaps_spec_int]. cbn [Nat.add depth_ok] in Hd.
+    rewrite forallb_forall in Hd.
+    rewrite (all_some_map_in (fun ct => swaps_tree d radix (Some lat) (snd ct))
+                             (fun ct => swaps_spec_int d radix lat (snd ct))).
+    + reflexivity.
+    + intros ct Hin. apply IH; [exact Hr|]. apply Hd. exact (present_in _ _ _ Hin).
+Qed.
+
+(* ---- payload independence *)
+Definition shape_rel (ct cu : Z * tree) : Prop :=
+  fst ct = fst cu /\ same_shape (snd ct) (snd cu) = true.
+
+Lemma same_shape_node es fs : same_shape (Node es) (Node fs) = true -> Forall2 shape_rel es fs.
+Proof.
+  revert fs. induction es as [|[c t'] es IH]; intros [|[c' u'] fs] H; cbn in H; try discriminate.
+  - constructor.
+  - apply andb_true_iff in H. destruct H as [H H3]. apply andb_true_iff in H. destruct H as [H1 H2].
+    constructor; [split; [apply Z.eqb_eq; exact H1|exact H2]|]. apply IH. exact H3.
+Qed.
+
+Lemma same_shape_empty : forall t u, same_shape t u = true -> is_empty 0 t = is_empty 0 u.
+Proof.
+  induction t as [v|es IHes] using tree_ind'; intros [w|fs] H; try discriminate.
+  - cbn in *. destruct (v =? 0), (w =? 0); try reflexivity; discriminate.
+  - apply same_shape_node in H. cbn [is_empty].
+    induction H as [|ct cu es fs [_ Hs] _ IH2]; [reflexivity|].
+    inversion IHes as [|? ? Hct Hes]; subst. cbn [forallb].
+    rewrite (Hct _ Hs), (IH2 Hes). reflexivity.
+Qed.
+
+Lemma present_rel es fs : Forall2 shape_rel es fs -> Forall2 shape_rel (present 0 es) (present 0 fs).
+Proof.
+  induction 1 as [|ct cu es fs [Hc Hs] _ IH]; [constructor|].
+  unfold present in *. cbn [filter]. rewrite (same_shape_empty _ _ Hs).
+  destruct (negb (is_empty 0 (snd cu))); [constructor; [split; assumption|exact IH]|exact IH].
+Qed.
+
+Lemma map_rel {B} (f : Z * tree -> B) l l' :
+  Forall2 shape_rel l l' -> (forall ct cu, shape_rel ct cu -> f ct = f cu) -> map f l = map f l'.
+Proof.
+  intros H Hf. induction H as [|ct cu l l' Hr _ IH]; [reflexivity|].
+  cbn [map]. rewrite (Hf _ _ Hr), IH. reflexivity.
+Qed.
+
+Lemma coords_rel ct cu : shape_rel ct cu -> coords_of (snd ct) = coords_of (snd cu).
+Proof.
+  intros [_ Hs]. destruct (snd ct) as [v|es], (snd cu) as [w|fs]; try discriminate; [reflexivity|].
+  apply same_shape_node in Hs. cbn [coords_of]. f_equal.
+  induction Hs as [|x y es fs [Hc _] _ IH]; [reflexivity|]. cbn [map]. rewrite Hc, IH. reflexivity.
+Qed.
+
+Lemma swaps_tree_values : forall depth radix lat t u,
+  same_shape t u = true -> swaps_tree depth radix lat t = swaps_tree depth radix lat u.
+Proof.
+  induction depth as [|d IH]; intros radix lat [v|es] [w|fs] H; try discriminate; try reflexivity.
+  - pose proof (present_rel _ _ (same_shape_node _ _ H)) as Hp. cbn [swaps_tree].
+    rewrite (map_rel (fun ct => coords_of (snd ct)) _ _ Hp coords_rel). reflexivity.
+  - pose proof (present_rel _ _ (same_shape_node _ _ H)) as Hp. cbn [swaps_tree].
+    rewrite (map_rel (fun ct => swaps_tree d radix lat (snd ct)) _ _ Hp
+               (fun ct cu Hr => IH radix lat _ _ (proj2 Hr))). reflexivity.
+Qed.
+
+(* ---------------------------------------------------------------- latency "N" *)
+(* ---- the order on (value, index) tuples *)
+Lemma tup_leb_refl p : tup_leb p p = true.
+Proof. unfold tup_leb. destruct p as [a b]. cbn [fst snd]. lia. Qed.
+
+Lemma tup_leb_total p q : tup_leb p q = false -> tup_leb q p = true.
+Proof. unfold tup_leb. destruct p as [a b], q as [c d]. cbn [fst snd]. lia. Qed.
+
+Lemma tup_leb_trans p q r : tup_leb p q = true -> tup_leb q r = true -> tup_leb p r = true.
+Proof. unfold tup_leb. destruct p as [a b], q as [c d], r as [e f]. cbn [fst snd]. lia. Qed.
+
+Lemma tup_leb_antisym p q : tup_leb p q = true -> tup_leb q p = true -> p = q.
+Proof.
+  unfold tup_leb. destruct p as [a b], q as [c d]. cbn [fst snd]. intros H1 H2.
+  assert (a = c /\ b = d) as [-> ->] by lia. reflexivity.
+Qed.
+
+Lemma tup_eqb_eq p q : tup_eqb p q = true <-> p = q.
+Proof.
+  unfold tup_eqb. destruct p as [a b], q as [c d]. cbn [fst snd]. split.
+  - intros H. assert (a = c /\ b = d) as [-> ->] by lia. reflexivity.
+  - intros H. inversion H. subst. lia.
+Qed.
+
+(* ---- sorted register, insertion *)
+Fixpoint sortedT (l : list tup) : Prop :=
+  match l with
+  | [] => True
+  | h :: t => Forall (fun z => tup_leb h z = true) t /\ sortedT t
+  end.
+
+Fixpoint ins_tup (e : tup) (l : list tup) : list tup :=
+  match l with
+  | [] => [e]
+  | h :: t => if tup_leb h e then h :: ins_tup e t else e :: h :: t
+  end.
+
+Lemma insert_bisect e l : insert_at (bisect_right l e) e l = ins_tup e l.
+Proof.
+  induction l as [|h t IH]; [reflexivity|].
+  cbn [bisect_right ins_tup]. destruct (tup_leb h e); [|reflexivity].
+  unfold insert_at in *. cbn [firstn skipn app]. rewrite IH. reflexivity.
+Qed.
+
+Lemma Forall_ins (Q : tup -> Prop) e l : Q e -> Forall Q l -> Forall Q (ins_tup e l).
+Proof.
+  intros He Hl. induction l as [|h t IH]; cbn [ins_tup]; [constructor; [exact He|constructor]|].
+  inversion Hl as [|? ? Hh Ht]; subst.
+  destruct (tup_leb h e); constructor; auto.
+Qed.
+
+Lemma ins_sorted e l : sortedT l -> sortedT (ins_tup e l).
+Proof.
+  induction l as [|h t IH]; intros Hs; cbn [ins_tup]; [cbn; auto|].
+  destruct Hs as [Hall Hs]. destruct (tup_leb h e) eqn:E.
+  - cbn [sortedT]. split; [apply Forall_ins; [exact E|exact Hall]|exact (IH Hs)].
+  - cbn [sortedT]. split; [|split; [exact Hall|exact Hs]].
+    pose proof (tup_leb_total _ _ E) as Eh. constructor; [exact Eh|].
+    eapply Forall_impl; [|exact Hall]. intros z Hz. cbn beta in *. eapply tup_leb_trans; eassumption.
+Qed.
+
+Lemma ins_perm e l : Permutation (ins_tup e l) (e :: l).
+Proof.
+  induction l as [|h t IH]; cbn [ins_tup]; [apply Permutation_refl|].
+  destruct (tup_leb h e); [|apply Permutation_refl].
+  eapply perm_trans; [apply perm_skip, IH|apply perm_swap].
+Qed.
+
+Lemma filter_all {A} (f : A -> bool) l : Forall (fun z => f z = true) l -> filter f l = l.
+Proof.
+  induction 1 as [|x l Hx Hl IH]; [reflexivity|]. cbn [filter]. rewrite Hx, IH. reflexivity.
+Qed.
+
+Lemma bisect_cost e l : sortedT l ->
+  Z.of_nat (length l) - Z.of_nat (bisect_right l e) = greater_count e l.
+Proof.
+  unfold greater_count. induction l as [|h t IH]; intros Hs; [reflexivity|].
+  destruct Hs as [Hall Hs]. cbn [bisect_right filter]. unfold tup_ltb at 1.
+  destruct (tup_leb h e) eqn:E; cbn [negb].
+  - specialize (IH Hs). cbn [length]. lia.
+  - rewrite filter_all; [cbn [length]; lia|].
+    eapply Forall_impl; [|exact Hall]. intros z Hz. cbn beta in *. unfold tup_ltb.
+    destruct (tup_leb z e) eqn:Ez; [|reflexivity].
+    rewrite (tup_leb_trans _ _ _ Hz Ez) in E. discriminate.
+Qed.
+
+Lemma filter_perm_length {A} (f : A -> bool) l l' :
+  Permutation l l' -> length (filter f l) = length (filter f l').
+Proof.
+  induction 1 as [|x l l' _ IH|x y l|l l' l'' _ IH1 _ IH2]; cbn [filter].
+  - reflexivity.
+  - destruct (f x); cbn [length]; lia.
+  - destruct (f x), (f y); reflexivity.
+  - lia.
+Qed.
+
+Lemma greater_count_perm e l l' : Permutation l l' -> greater_count e l = greater_count e l'.
+Proof. intros H. unfold greater_count. rewrite (filter_perm_length _ _ _ H). reflexivity. Qed.
+
+(* ---- selecting and removing the maximum *)
+Lemma max_tup_spec : forall l m,
+  In (max_tup m l) (m :: l) /\ tup_leb m (max_tup m l) = true
+  /\ Forall (fun z => tup_leb z (max_tup m l) = true) l.
+Proof.
+  induction l as [|h t IH]; intros m; cbn [max_tup].
+  - split; [left; reflexivity|]. split; [apply tup_leb_refl|constructor].
+  - destruct (tup_leb m h) eqn:E.
+    + destruct (IH h) as (I1 & I2 & I3). split; [right; exact I1|].
+      split; [eapply tup_leb_trans; eassumption|]. constructor; assumption.
+    + destruct (IH m) as (I1 & I2 & I3). split.
+      * destruct I1 as [I1|I1]; [left; exact I1|right; right; exact I1].
+      * split; [exact I2|]. constructor; [|exact I3].
+        eapply tup_leb_trans; [apply tup_leb_total; exact E|exact I2].
+Qed.
+
+Lemma max_tup_is M h l : In M (h :: l) -> Forall (fun z => tup_leb z M = true) (h :: l) ->
+  max_tup h l = M.
+Proof.
+  intros Hin Hall. destruct (max_tup_spec l h) as (I1 & I2 & I3).
+  apply tup_leb_antisym.
+  - rewrite Forall_forall in Hall. apply Hall. exact I1.
+  - destruct Hin as [<-|Hin]; [exact I2|]. rewrite Forall_forall in I3. apply I3. exact Hin.
+Qed.
+
+Lemma remove_one_perm m l : In m l -> Permutation l (m :: remove_one m l).
+Proof.
+  induction l as [|h t IH]; intros Hin; [destruct Hin|].
+  cbn [remove_one]. destruct (tup_eqb h m) eqn:E.
+  - apply tup_eqb_eq in E. subst h. apply Permutation_refl.
+  - destruct Hin as [->|Hin].
+    + rewrite (proj2 (tup_eqb_eq m m) eq_refl) in E. discriminate.
+    + eapply perm_trans; [apply perm_skip, (IH Hin)|apply perm_swap].
+Qed.
+
+Lemma sortedT_snoc l e : sortedT (l ++ [e]) ->
+  sortedT l /\ Forall (fun z => tup_leb z e = true) (l ++ [e]).
+Proof.
+  induction l as [|h t IH]; intros Hs.
+  - split; [exact I|]. constructor; [apply tup_leb_refl|constructor].
+  - cbn [app sortedT] in Hs. destruct Hs as [Hall Hs]. destruct (IH Hs) as [I1 I2].
+    apply Forall_app in Hall. destruct Hall as [Ht He].
+    split; [split; assumption|].
+    cbn [app]. constructor; [|exact I2]. inversion He; subst. assumption.
+Qed.
+
+(* ---- the model's head-insertion loop against the reference *)
+Definition rel (a : option (list (list Z) * list tup * Z)) (b : option (list (list Z) * list tup * Z)) : Prop :=
+  match a, b with
+  | Some (l1, h1, c1), Some (l2, r2, c2) => l1 = l2 /\ c1 = c2 /\ sortedT h1 /\ Permutation h1 r2
+  | None, None => True
+  | _, _ => False
+  end.
+
+Lemma push_enter lists i head reg c : sortedT head -> Permutation head reg ->
+  rel (push lists i head c) (enter lists i reg c).
+Proof.
+  intros Hs Hp. unfold push, enter. destruct (nth i lists []) as [|x rest]; [exact I|].
+  cbn [rel]. split; [reflexivity|]. split.
+  - rewrite <- (greater_count_perm _ _ _ Hp), <- (bisect_cost _ _ Hs). lia.
+  - rewrite insert_bisect. split; [apply ins_sorted, Hs|].
+    eapply perm_trans; [apply ins_perm|apply perm_skip, Hp].
+Qed.
+
+Lemma fill_enter_all : forall n i lists head reg c, sortedT head -> Permutation head reg ->
+  rel (fill n i lists head c) (enter_all n i lists reg c).
+Proof.
+  induction n as [|n IH]; intros i lists head reg c Hs Hp.
+  - cbn [fill enter_all rel]. repeat split; assumption.
+  - cbn [fill enter_all]. pose proof (push_enter lists i head reg c Hs Hp) as R.
+    destruct (push lists i head c) as [[[l1 h1] c1]|], (enter lists i reg c) as [[[l2 r2] c2]|];
+      cbn [rel] in R; try contradiction; [|exact I].
+    destruct R as (-> & -> & Hs1 & Hp1). apply IH; assumption.
+Qed.
+
+Lemma drain_leave : forall fuel lists head reg c out, sortedT head -> Permutation head reg ->
+  drain fuel lists head c out = leave_all fuel lists reg c out.
+Proof.
+  induction fuel as [|fuel IH]; intros lists head reg c out Hs Hp; [reflexivity|].
+  cbn [drain leave_all].
+  destruct (rev head) as [|e rhead] eqn:Er.
+  - assert (head = []) as -> by (rewrite <- (rev_involutive head), Er; reflexivity).
+    apply Permutation_nil in Hp. subst reg. reflexivity.
+  - assert (Eh : head = rev rhead ++ [e]) by (rewrite <- (rev_involutive head), Er; reflexivity).
+    subst head. destruct (sortedT_snoc _ _ Hs) as [Hs' Hle].
+    destruct reg as [|h reg0].
+    { apply Permutation_sym, Permutation_nil in Hp. destruct (rev rhead); discriminate. }
+    assert (Hin : In e (h :: reg0)).
+    { eapply Permutation_in; [exact Hp|]. apply in_or_app. right. left. reflexivity. }
+    assert (Hall : Forall (fun z => tup_leb z e = true) (h :: reg0)).
+    { eapply Permutation_Forall; [exact Hp|exact Hle]. }
+    rewrite (max_tup_is e h reg0 Hin Hall).
+    assert (Hp' : Permutation (rev rhead) (remove_one e (h :: reg0))).
+    { apply (Permutation_cons_inv (a := e)).
+      eapply perm_trans; [apply Permutation_cons_append|].
+      eapply perm_trans; [exact Hp|]. apply remove_one_perm. exact Hin. }
+    destruct (nth (Z.to_nat (snd e)) lists []) as [|x rest] eqn:En.
+    + apply IH; assumption.
+    + pose proof (push_enter lists (Z.to_nat (snd e)) (rev rhead) (remove_one e (h :: reg0)) c Hs' Hp') as R.
+      destruct (push lists (Z.to_nat (snd e)) (rev rhead) c) as [[[l1 h1] c1]|],
+               (enter lists (Z.to_nat (snd e)) (remove_one e (h :: reg0)) c) as [[[l2 r2] c2]|];
+        cbn [rel] in R; try contradiction; [|reflexivity].
+      destruct R as (-> & -> & Hs1 & Hp1). apply IH; assumption.
+Qed.
+
+Lemma merge_N_ref_eq group : merge_N group = merge_N_ref group.
+Proof.
+  unfold merge_N, merge_N_ref.
+  pose proof (fill_enter_all (length group) O (map (@rev Z) group) [] [] 0 I (Permutation_refl _)) as R.
+  destruct (fill (length group) 0 (map (@rev Z) group) [] 0) as [[[l1 h1] c1]|],
+           (enter_all (length group) 0 (map (@rev Z) group) [] 0) as [[[l2 r2] c2]|];
+    cbn [rel] in R; try contradiction; [|reflexivity].
+  destruct R as (-> & -> & Hs1 & Hp1). rewrite (drain_leave _ _ _ _ _ _ Hs1 Hp1). reflexivity.
+Qed.
+
+Lemma rounds_ref_eq : forall fuel radix coords swaps,
+  rounds fuel radix None coords swaps = rounds_ref fuel radix coords swaps.
+Proof.
+  induction fuel as [|fuel IH]; intros radix coords swaps; cbn [rounds rounds_ref].
+  - reflexivity.
+  - destruct (Nat.leb (length coords) 1); [reflexivity|].
+    set (n := Z.of_nat (length coords)).
+    assert (Er : match radix with None => n | Some r => if r >? n then n else r end
+                 = match radix with None => n | Some r => Z.min r n end).
+    { destruct radix as [r|]; [|reflexivity]. destruct (Z.gtb_spec r n); lia. }
+    rewrite Er. destruct (Z.ltb _ 2); [reflexivity|].
+    unfold merge_group. rewrite (map_ext merge_N merge_N_ref merge_N_ref_eq).
+    destruct (all_some _) as [res|]; [apply IH|reflexivity].
+Qed.
+
+Lemma swaps_ref_N_eq : forall depth radix t,
+  swaps_tree depth radix None t = swaps_ref_N depth radix t.
+Proof.
+  induction depth as [|d IH]; intros radix [v|es]; cbn [swaps_tree swaps_ref_N]; try reflexivity.
+  - destruct (all_some _) as [cs|]; [apply rounds_ref_eq|reflexivity].
+  - rewrite (map_ext (fun ct => swaps_tree d radix None (snd ct))
+                     (fun ct => swaps_ref_N d radix (snd ct)) (fun ct => IH radix (snd ct))).
+    reflexivity.
+Qed.
+
+(* ---------------------------------------------------------------- the reference is total *)
+Definition nonempty (l : list Z) : Prop := l <> [].
+
+Lemma nth_split_eq {A} (d : A) : forall (l : list A) i, (i < length l)%nat ->
+  l = firstn i l ++ nth i l d :: skipn (S i) l.
+Proof.
+  induction l as [|x l IH]; intros i Hi; [cbn in Hi; lia|].
+  destruct i as [|i]; [reflexivity|]. cbn [firstn nth skipn app]. f_equal. apply IH. cbn in Hi. lia.
+Qed.
+
+Lemma nth_nonnil_lt (lists : list (list Z)) i : nth i lists [] <> [] -> (i < length lists)%nat.
+Proof.
+  intros H. destruct (Nat.lt_ge_cases i (length lists)) as [Hl|Hl]; [exact Hl|].
+  rewrite nth_overflow in H by exact Hl. contradiction.
+Qed.
+
+Lemma upd_total (lists : list (list Z)) i x rest : nth i lists [] = x :: rest ->
+  S (length (concat (firstn i lists ++ rest :: skipn (S i) lists))) = length (concat lists).
+Proof.
+  intros Hn. assert (Hi : (i < length lists)%nat) by (apply nth_nonnil_lt; rewrite Hn; discriminate).
+  rewrite (nth_split_eq [] lists i Hi) at 3. rewrite Hn.
+  rewrite !concat_app. cbn [concat]. rewrite !app_length. cbn [length]. lia.
+Qed.
+
+Lemma upd_other (lists : list (list Z)) i rest k : k <> i -> (i < length lists)%nat ->
+  nth k (firstn i lists ++ rest :: skipn (S i) lists) [] = nth k lists [].
+Proof.
+  intros Hk Hi. rewrite (nth_split_eq [] lists i Hi) at 3.
+  assert (Hf : length (firstn i lists) = i) by (rewrite firstn_length; lia).
+  destruct (Nat.lt_ge_cases k i) as [Hlt|Hge].
+  - rewrite !app_nth1 by lia. reflexivity.
+  - rewrite !app_nth2 by lia. rewrite Hf. destruct (k - i)%nat as [|q] eqn:E; [lia|]. reflexivity.
+Qed.
+
+Lemma enter_some lists i reg c x rest : nth i lists [] = x :: rest ->
+  enter lists i reg c
+  = Some (firstn i lists ++ rest :: skipn (S i) lists, (x, Z.of_nat i) :: reg,
+          c + (1 + greater_count (x, Z.of_nat i) reg)).
+Proof. intros H. unfold enter. rewrite H. reflexivity. Qed.
+
+Lemma enter_all_total : forall n i lists reg c,
+  (forall k, (i <= k < i + n)%nat -> nth k lists [] <> []) ->
+  exists lists' reg' c', enter_all n i lists reg c = Some (lists', reg', c')
+    /\ length reg' = (length reg + n)%nat
+    /\ (length (concat lists') + n)%nat = length (concat lists).
+Proof.
+  induction n as [|n IH]; intros i lists reg c H.
+  - exists lists, reg, c. cbn [enter_all]. repeat split; lia.
+  - cbn [enter_all]. destruct (nth i lists []) as [|x rest] eqn:En.
+    { exfalso. apply (H i); [lia|exact En]. }
+    rewrite (enter_some _ _ _ _ _ _ En).
+    assert (Hi : (i < length lists)%nat) by (apply nth_nonnil_lt; rewrite En; discriminate).
+    destruct (IH (S i) (firstn i lists ++ rest :: skipn (S i) lists) ((x, Z.of_nat i) :: reg)
+                 (c + (1 + greater_count (x, Z.of_nat i) reg))) as (l' & r' & c' & E & Hr & Hl).
+    { intros k Hk. rewrite upd_other by lia. apply H. lia. }
+    exists l', r', c'. split; [exact E|]. cbn [length] in Hr.
+    pose proof (upd_total _ _ _ _ En). split; lia.
+Qed.
+
+Lemma remove_one_len m l : In m l -> S (length (remove_one m l)) = length l.
+Proof.
+  induction l as [|h t IH]; intros Hin; [destruct Hin|].
+  cbn [remove_one]. destruct (tup_eqb h m) eqn:E; [reflexivity|].
+  destruct Hin as [->|Hin]; [rewrite (proj2 (tup_eqb_eq m m) eq_refl) in E; discriminate|].
+  cbn [length]. rewrite (IH Hin). reflexivity.
+Qed.
+
+Lemma leave_all_total : forall fuel lists reg c out,
+  (length reg + length (concat lists) < fuel)%nat ->
+  exists c' out', leave_all fuel lists reg c out = Some (c', out')
+    /\ (length out + length reg <= length out')%nat.
+Proof.
+  induction fuel as [|fuel IH]; intros lists reg c out Hf; [lia|].
+  cbn [leave_all]. destruct reg as [|h reg0]; [exists c, out; split; [reflexivity|cbn; lia]|].
+  set (m := max_tup h reg0).
+  assert (Hin : In m (h :: reg0)) by (apply max_tup_spec).
+  pose proof (remove_one_len m _ Hin) as Hrl.
+  destruct (nth (Z.to_nat (snd m)) lists []) as [|x rest] eqn:En.
+  - destruct (IH lists (remove_one m (h :: reg0)) c (out ++ [fst m])) as (c' & o' & E & Hl); [lia|].
+    exists c', o'. split; [exact E|]. rewrite app_length in Hl. cbn [length] in *. lia.
+  - rewrite (enter_some _ _ _ _ _ _ En). pose proof (upd_total _ _ _ _ En) as Hu.
+    destruct (IH (firstn (Z.to_nat (snd m)) lists ++ rest :: skipn (S (Z.to_nat (snd m))) lists)
+                 ((x, Z.of_nat (Z.to_nat (snd m))) :: remove_one m (h :: reg0))
+                 (c + (1 + greater_count (x, Z.of_nat (Z.to_nat (snd m))) (remove_one m (h :: reg0))))
+                 (out ++ [fst m])) as (c' & o' & E & Hl); [cbn [length] in *; lia|].
+    exists c', o'. split; [exact E|]. rewrite app_length in Hl. cbn [length] in *. lia.
+Qed.
+
+Lemma concat_rev_length (g : list (list Z)) : length (concat (map (@rev Z) g)) = length (concat g).
+Proof.
+  induction g as [|l g IH]; [reflexivity|]. cbn [map concat]. rewrite !app_length, rev_length, IH. reflexivity.
+Qed.
+
+Lemma merge_N_ref_total group : Forall nonempty group ->
+  exists c out, merge_N_ref group = Some (c, out) /\ (group <> [] -> nonempty out).
+Proof.
+  intros Hne. unfold merge_N_ref.
+  destruct (enter_all_total (length group) O (map (@rev Z) group) [] 0) as (l' & r' & c' & E & Hr & Hl).
+  { intros k Hk. change (@nil Z) with (rev (@nil Z)). rewrite map_nth. intros Hrev.
+    rewrite Forall_forall in Hne. apply (Hne (nth k group [])); [apply nth_In; lia|].
+    apply (f_equal (@rev Z)) in Hrev. rewrite rev_involutive in Hrev. exact Hrev. }
+  rewrite E. rewrite concat_rev_length in Hl. cbn [length] in Hr.
+  destruct (leave_all_total (S (length (concat group))) l' r' c' []) as (c2 & o2 & E2 & Hlen); [lia|].
+  rewrite E2. exists c2, (sort_z o2). split; [reflexivity|].
+  intros Hg. unfold nonempty. intros Hs. apply (f_equal (@length Z)) in Hs.
+  rewrite sort_z_length in Hs. cbn [length] in Hs, Hlen. destruct group; [contradiction|cbn [length] in Hr; lia].
+Qed.
+
+Lemma chunks_f_props {A} (Q : A -> Prop) : forall fuel r (l : list A), (0 < r)%nat -> Forall Q l ->
+  Forall (fun g => g <> [] /\ Forall Q g) (chunks_f fuel r l).
+Proof.
+  induction fuel as [|fuel IH]; intros r l Hr Hl; [constructor|].
+  destruct l as [|x l]; [constructor|]. cbn [chunks_f]. constructor.
+  - split; [destruct r; [lia|discriminate]|].
+    rewrite <- (firstn_skipn r (x :: l)) in Hl. apply Forall_app in Hl. tauto.
+  - apply IH; [exact Hr|]. rewrite <- (firstn_skipn r (x :: l)) in Hl. apply Forall_app in Hl. tauto.
+Qed.
+
+Lemma all_merge_total cs : Forall (fun g => g <> [] /\ Forall nonempty g) cs ->
+  exists res, all_some (map merge_N_ref cs) = Some res /\ length res = length cs
+              /\ Forall nonempty (map snd res).
+Proof.
+  induction 1 as [|g cs [Hg Hne] _ (res & E & Hl & Hn)]; [exists []; repeat split; constructor|].
+  destruct (merge_N_ref_total g Hne) as (c & out & Em & Ho).
+  exists ((c, out) :: res). cbn [map all_some]. rewrite Em, E. split; [reflexivity|].
+  split; [cbn [length]; lia|]. cbn [map snd]. constructor; [exact (Ho Hg)|exact Hn].
+Qed.
+
+Lemma rounds_ref_total : forall fuel radix coords cost,
+  radix_ok radix -> Forall nonempty coords -> (length coords <= fuel)%nat ->
+  exists v, rounds_ref fuel radix coords cost = Some v.
+Proof.
+  induction fuel as [|fuel IH]; intros radix coords cost Hr Hne Hl.
+  - destruct coords; [|cbn in Hl; lia]. exists cost. reflexivity.
+  - cbn [rounds_ref]. destruct (Nat.leb_spec (length coords) 1) as [Hle|Hgt]; [exists cost; reflexivity|].
+    set (n := Z.of_nat (length coords)).
+    set (r := match radix with None => n | Some r => Z.min r n end).
+    assert (Hr2 : 2 <= r <= n).
+    { unfold r. destruct radix as [r0|]; cbn [radix_ok] in Hr; lia. }
+    destruct (Z.ltb_spec r 2); [lia|].
+    assert (Hrn : (0 < Z.to_nat r)%nat) by lia.
+    unfold chunks.
+    pose proof (chunks_f_length (length coords) (Z.to_nat r) coords Hrn (le_n _)) as Hlen.
+    rewrite Z2Nat.id in Hlen by lia. fold n in Hlen.
+    destruct (all_merge_total _ (chunks_f_props nonempty (length coords) (Z.to_nat r) coords Hrn Hne))
+      as (res & E & Hrl & Hrn2).
+    rewrite E. apply IH; [exact (proj1 Hr2)|exact Hrn2|].
+    rewrite map_length, Hrl.
+    assert ((n + r - 1) / r < n) by (apply Z.div_lt_upper_bound; nia). lia.
+Qed.
+
+Lemma all_some_exists {A B} (f : A -> option B) l :
+  (forall x, In x l -> exists v, f x = Some v) -> exists vs, all_some (map f l) = Some vs.
+Proof.
+  induction l as [|x l IH]; intros H; [exists []; reflexivity|].
+  destruct (H x (or_introl eq_refl)) as [v Ev]. destruct IH as [vs Evs]; [intros y Hy; apply H; right; exact Hy|].
+  exists (v :: vs). cbn [map all_some]. rewrite Ev, Evs. reflexivity.
+Qed.
+
+Lemma swaps_ref_N_total : forall depth radix t,
+  radix_ok radix -> depth_ok (depth + 2) t = true -> exists v, swaps_ref_N depth radix t = Some v.
+Proof.
+  induction depth as [|d IH]; intros radix [v|es] Hr Hd; try discriminate.
+  - cbn [swaps_ref_N]. cbn [Nat.add depth_ok] in Hd. rewrite forallb_forall in Hd.
+    assert (Hk : forall ct, In ct (present 0 es) ->
+              coords_of (snd ct) = Some (kid_coords ct) /\ nonempty (kid_coords ct)).
+    { intros ct Hin. pose proof (present_in _ _ _ Hin) as Hin'.
+      destruct (depth1_node _ 0 (Hd ct Hin')) as [es' He].
+      unfold kid_coords. rewrite He. split; [reflexivity|].
+      unfold present in Hin. apply filter_In in Hin. destruct Hin as [_ Hne]. rewrite He in Hne.
+      destruct es'; [discriminate|]. discriminate. }
+    rewrite (all_some_map_in (fun ct => coords_of (snd ct)) kid_coords) by (intros ct Hin; apply Hk, Hin).
+    apply rounds_ref_total; [exact Hr| |apply le_n].
+    rewrite Forall_forall. intros l Hl. apply in_map_iff in Hl. destruct Hl as (l0 & <- & Hl0).
+    apply in_map_iff in Hl0. destruct Hl0 as (ct & <- & Hct). destruct (Hk ct Hct) as [_ Hne].
+    unfold nonempty in *. intros Hs. apply (f_equal (@length Z)) in Hs.
+    rewrite sort_z_length, map_length in Hs. destruct (kid_coords ct); [contradiction|discriminate].
+  - cbn [swaps_ref_N]. cbn [Nat.add depth_ok] in Hd. rewrite forallb_forall in Hd.
+    destruct (all_some_exists (fun ct => swaps_ref_N d radix (snd ct)) (present 0 es)) as [vs E].
+    + intros ct Hin. apply IH; [exact Hr|]. apply Hd. exact (present_in _ _ _ Hin).
+    + rewrite E. eexists. reflexivity.
 Qed.
